@@ -8,7 +8,8 @@ For every mutant: one textual edit of a scratch copy of avocado_i2n/states/setup
   kind "get":   the filters `skip_types` / `image_readonly` sit in the loop bodies of the CALLERS of the generator
                 (get/set/unset/check_states), which harness/pygen_pxpolicy.py translates: GenPolicy.lean is regenerated
                 and `lake build I2N.Lemmas.PolicyGen` (getOne_matches_source ...) must FAIL.
-A mutant for which the build succeeds SURVIVES = a hole.  The committed generated files are restored afterwards.
+A mutant for which the build succeeds SURVIVES = a hole.  Names starting with `e` are semantically EQUIVALENT edits: for
+those the proof must still compile (the kills are not an artefact of the proof script spelling out the generated term).  The committed generated files are restored afterwards.
 """
 import os
 import subprocess
@@ -50,10 +51,19 @@ MUTANTS = {
         "iter", [('obj_params["object_type"] = "/".join', 'obj_params["object_types"] = "/".join')]),
     "i10 iter: type = name not written into the object's dictionary": (
         "iter", [('        obj_params[params_obj_type] = params_obj_name\n', '')]),
-    "i11 iter: the dictionary with the type parameters propagated is handed down": (
+    "e1 iter: EQUIVALENT edit (the yielded dictionary re-uses the name obj_params after the descent)": (
         "iter", [('        obj_type_params = obj_params.object_params(params_obj_type)\n        yield obj_type_params\n',
                   '        obj_params = obj_params.object_params(params_obj_type)\n        yield obj_params\n'),
                  ]),
+    "i11 iter: the type parameters are resolved before the descent (they propagate downwards)": (
+        "iter", [(TAIL, '        obj_params = obj_params.object_params(params_obj_type)\n'
+                        '        if params_obj_type != object_composition[-1]:\n' + REC +
+                        '        yield obj_params\n')]),
+    "e2 iter: EQUIVALENT edit (descent test written the other way round)": (
+        "iter", [('        if params_obj_type != object_composition[-1]:', '        if object_composition[-1] != params_obj_type:')]),
+    "e3 iter: EQUIVALENT edit (the shared entry is written after the object's dictionary is made)": (
+        "iter", [('        composites[-1] = (params_obj_name, params_obj_type)\n        obj_params = params.object_params(params_obj_name)\n',
+                  '        obj_params = params.object_params(params_obj_name)\n        composites[-1] = (params_obj_name, params_obj_type)\n')]),
     "i12 iter: type parameters not resolved (yield of obj_params)": (
         "iter", [('        yield obj_type_params\n', '        yield obj_params\n')]),
     "i13 iter: the type is read at a fixed depth": (
@@ -114,7 +124,11 @@ def main(argv):
                 continue
             open(gen, "w").write(out)
             r = subprocess.run(["lake", "build", target], cwd=vlib.LEAN, capture_output=True, text=True)
-            if r.returncode == 0:
+            if r.returncode == 0 and name.startswith("e"):
+                rows.append((name, "proof still compiles (as it must)", f"{target} builds"))
+            elif name.startswith("e"):
+                rows.append((name, "SURVIVES", "an equivalent edit breaks the proof: the proof depends on the spelling"))
+            elif r.returncode == 0:
                 rows.append((name, "SURVIVES", f"{target} still builds"))
             else:
                 errs = [l for l in (r.stdout + r.stderr).splitlines() if l.startswith("error:") and ".lean:" in l]
